@@ -331,4 +331,277 @@ theorem C12_exit_pass_encrypt (P : Prims) (rnd : Rand) (w : World) (inf outf : O
   · rintro ⟨_, _, _, _, _, _, _, _, hr⟩
     rw [hr]
 
+/-! ## non-vacuity -/
+
+namespace C12Ex
+
+/-! a world built structurally: a one-key keyring produced by the serializer, the key locked with the password of the
+    environment (no `decide` through scrypt / base64 / the keyring parser: the existing round-trip theorems are used) -/
+
+def name : Str := "alice".toList
+def pwS : Str := "pw".toList
+def skA : Bytes := List.replicate 32 1          -- private = public key under `toyPrims`
+def salt : Bytes := List.replicate 32 9
+def locked : Str := Keyring.lockPrivateKey skA (utf8 pwS) salt
+def krText : Str := Keyring.serializeKey name (Keyring.encodePk skA) locked
+def ks : List Keyring.Key := [⟨name, Keyring.encodePk skA, some locked⟩]
+
+/-- files `kr` (the keyring) and `in` (the input); the password in the environment -/
+def world (input stdin : Bytes) (env : List (Str × Str) := [(str "KESTREL_PASSWORD", pwS)]) : World :=
+  { files := [(str "kr", utf8 krText), (str "in", input)], env := env, stdin := stdin }
+
+theorem skA_len : skA.length = 32 := List.length_replicate ..
+theorem salt_len : salt.length = 32 := List.length_replicate ..
+
+theorem krText_parse : Keyring.parse krText = some ks :=
+  C14_first name (Keyring.encodePk skA) locked
+    ⟨by decide, by decide, by decide, (C17_encodePk_length skA skA_len).2, C15_encodedSkOk skA (utf8 pwS) salt skA_len salt_len⟩
+
+theorem world_file_kr (input stdin : Bytes) (env : List (Str × Str)) : (world input stdin env).file (str "kr") = some (utf8 krText) := rfl
+theorem world_file_in (input stdin : Bytes) (env : List (Str × Str)) : (world input stdin env).file (str "in") = some input := rfl
+
+theorem openKeyring_of {w : World} {p text : Str} {ks : List Keyring.Key} (hf : w.file p = some (utf8 text))
+    (hp : Keyring.parse text = some ks) : openKeyring w (some p) = .ok ks := by
+  simp only [openKeyring, hf, utf8Decode_utf8, hp]
+
+theorem unlockNamed_of {w : World} {ks : List Keyring.Key} {name : Str} {key : Keyring.Key} {locked : Str} {pk pw sk : Bytes}
+    (hg : Keyring.getKey ks name = some key) (hd : Keyring.decodePk key.pk = .ok pk) (hs : key.sk = some locked)
+    (hp : askPass w true = .ok pw) (hu : Keyring.unlockPrivateKey locked pw = .ok sk) :
+    unlockNamed w ks name true = .ok (sk, pk) := by
+  simp only [unlockNamed, hg, hd, hs, hp, hu]
+
+theorem world_openKeyring (input stdin : Bytes) (env : List (Str × Str)) :
+    openKeyring (world input stdin env) (some (str "kr")) = .ok ks :=
+  openKeyring_of (world_file_kr input stdin env) krText_parse
+
+theorem getKey_ks : Keyring.getKey ks name = some ⟨name, Keyring.encodePk skA, some locked⟩ := by
+  unfold Keyring.getKey ks
+  rw [List.find?_cons_of_pos]
+  simp
+
+theorem world_unlock (input stdin : Bytes) : unlockNamed (world input stdin) ks name true = .ok (skA, skA) :=
+  unlockNamed_of getKey_ks (Keyring.decodePk_encodePk skA skA_len) rfl (pw := utf8 pwS) rfl
+    (Keyring.unlock_lock skA (utf8 pwS) salt skA_len salt_len)
+
+
+theorem senderOf_ks : senderOf ks (some skA) = some (Sum.inl name) := by
+  have : Keyring.getNameFromKey ks (Keyring.encodePk skA) = some name := by
+    unfold Keyring.getNameFromKey ks
+    rw [List.find?_cons_of_pos (by simp)]
+    rfl
+  simp only [senderOf, this]
+
+abbrev eK : Bytes := List.replicate 32 2
+abbrev pK : Bytes := List.replicate 32 7
+
+/-- a genuine ciphertext from alice to alice (C01) -/
+theorem exists_ct : ∃ ct writes, keyEncrypt toyPrims skA skA skA eK eK pK exampleReads = (ct, .ok) ∧
+    keyDecrypt toyPrims skA skA ct = (writes, .ok, some skA) ∧ writes.flatten = exampleReads.flatten := by
+  obtain ⟨ct, henc, ⟨writes, hdec, hw⟩, _⟩ := C01_roundtrip toyPrims toyPrims_lawful skA skA skA skA eK eK pK exampleReads
+    (List.length_replicate ..) skA_len (List.length_replicate ..) (toy_dhAgree _ _ _) exampleReads_wf exampleReads_le
+  exact ⟨ct, writes, henc, hdec, hw⟩
+
+/-- **`decrypt -o out -k kr --env-pass -t alice in` on a genuine file**: exit status 0, the plaintext in `out`, "File from: alice" -/
+theorem decrypt_ok : ∃ ct, runDecrypt toyPrims (world ct []) (some (str "in")) name (some (str "out")) (some (str "kr")) true =
+    { exit := 0, world := (world ct []).setFile (str "out") exampleReads.flatten, stdout := [], sender := some (Sum.inl name) } := by
+  obtain ⟨ct, writes, _, hdec, hw⟩ := exists_ct
+  refine ⟨ct, ?_⟩
+  obtain ⟨_, spk, hspk, hfin⟩ := (decryptFinish_pure toyPrims (world ct []) (some (str "out")) ks skA skA ct hdec).2.2 rfl
+  rw [runDecrypt_path (by decide) (openInput_file (world_file_in ct [] _)) (world_openKeyring ct [] _) (world_unlock ct []), hfin]
+  cases hspk
+  simp only [delivered, hw, senderOf_ks]
+
+example : ∃ w : World, (runDecrypt toyPrims w (some (str "in")) name (some (str "out")) (some (str "kr")) true).exit = 0 := by
+  obtain ⟨ct, h⟩ := decrypt_ok
+  exact ⟨_, by rw [h]⟩
+
+
+/-- a small genuine file from alice to alice: chunks `[7,8]` and `[9]` (199 bytes) -/
+def smallCt : Bytes := (keyEncrypt toyPrims skA skA skA eK eK pK [[7,8],[9],[]]).1
+
+set_option maxRecDepth 20000 in
+theorem smallCt_dec : keyDecrypt toyPrims skA skA smallCt = ([[7,8],[9]], .ok, some skA) := by decide
+
+/-- the same command on the small file, every hypothesis of the path discharged -/
+theorem decrypt_small (outf : Option Str) (hout : outf ≠ some (str "in")) :
+    runDecrypt toyPrims (world smallCt []) (some (str "in")) name outf (some (str "kr")) true =
+      { exit := 0, world := (delivered (world smallCt []) outf [7,8,9]).1, stdout := (delivered (world smallCt []) outf [7,8,9]).2,
+        sender := some (Sum.inl name) } := by
+  obtain ⟨_, spk, hspk, hfin⟩ := (decryptFinish_pure toyPrims (world smallCt []) outf ks skA skA smallCt smallCt_dec).2.2 rfl
+  rw [runDecrypt_path (sameFile_some_ne hout) (openInput_file (world_file_in smallCt [] _)) (world_openKeyring smallCt [] _)
+    (world_unlock smallCt []), hfin]
+  cases hspk
+  simp only [senderOf_ks]
+  rfl
+
+/-! ### (1) parsing -/
+
+/-- `decrypt in -t alice -o out=1 --env-pass`: an output name containing '=' -/
+def exReq : Request := .decrypt (some (str "in")) (str "alice") (some (str "out=1")) none true
+/-- values that start with '-', contain several '=', are `--`, are empty; no input file -/
+def exReq2 : Request := .encrypt none (str "-bob") (str "a=b=c") (some (str "--")) (some (str "")) false
+
+theorem exReq_renderable : Renderable exReq :=
+  ⟨(fun f hf => by cases hf; decide), ⟨by decide, by decide⟩, (fun v hv => by cases hv; exact ⟨by decide, by decide⟩),
+   (fun v hv => by cases hv)⟩
+theorem exReq2_renderable : Renderable exReq2 :=
+  ⟨(fun f hf => by cases hf), ⟨by decide, by decide⟩, ⟨by decide, by decide⟩,
+   (fun v hv => by cases hv; exact ⟨by decide, by decide⟩), (fun v hv => by cases hv; exact ⟨by decide, by decide⟩)⟩
+
+example : render ⟨false, true, true⟩ exReq = [str "dec", str "in", str "-t=alice", str "-o=out=1", str "--env-pass"] := by decide
+example : render ⟨true, false, false⟩ exReq =
+    [str "decrypt", str "in", str "--to", str "alice", str "--output", str "out=1", str "--env-pass"] := by decide
+example : render ⟨false, false, false⟩ exReq2 =
+    [str "encrypt", str "-t", str "-bob", str "-f", str "a=b=c", str "-o", str "--", str "-k", str ""] := by decide
+example : render ⟨true, true, true⟩ exReq2 =
+    [str "enc", str "--to=-bob", str "--from=a=b=c", str "--output=--", str "--keyring="] := by decide
+
+example (st : Style) : parseArgv (str "kestrel" :: render st exReq) = exReq :=
+  C12_parse_render _ ⟨by decide, by decide⟩ st _ exReq_renderable
+example (st st' : Style) : parseArgv (str "kestrel" :: render st exReq2) = parseArgv (str "kestrel" :: render st' exReq2) :=
+  C12_parse_equiv _ ⟨by decide, by decide⟩ st st' _ exReq2_renderable
+/-- the theorem agrees with evaluating the model -/
+example : parseArgv (str "kestrel" :: render ⟨false, true, true⟩ exReq) = exReq := by decide
+set_option maxRecDepth 10000 in
+example : parseArgv (str "kestrel" :: render ⟨false, false, false⟩ exReq2) = exReq2 := by decide
+set_option maxRecDepth 10000 in
+example : parseArgv (str "kestrel" :: render ⟨true, true, true⟩ exReq2) = exReq2 := by decide
+example (st : Style) : parseArgv (str "kestrel" :: render st (.keyGen (some (str "kr")) true)) = .keyGen (some (str "kr")) true :=
+  C12_parse_render _ ⟨by decide, by decide⟩ st _ (fun v hv => by cases hv; exact ⟨by decide, by decide⟩)
+example (st : Style) : parseArgv (str "kestrel" :: render st (.changePass KR.aliceSk false)) = .changePass KR.aliceSk false :=
+  C12_parse_render _ ⟨by decide, by decide⟩ st _ (show isArg KR.aliceSk = false by decide)
+
+/-- the side conditions are needed: a value `-h` turns the command into a help request; an option-like input file name is
+    taken for an option -/
+example : parseArgv [str "kestrel", str "dec", str "-t", str "-h"] = .help := by decide
+example : parseArgv [str "kestrel", str "dec", str "-x", str "-t", str "a"] = .usageError := by decide
+example : parseArgv [str "-h", str "dec", str "-t", str "a"] = .help := by decide
+
+/-! ### (2) wiring -/
+
+example (input : Bytes) (rnd : Rand) :
+    sameResult (run toyPrims rnd (world input []) (.decrypt (some (str "in")) name (some (str "out")) (some (str "kr")) true))
+      (run toyPrims rnd { world input [] with stdin := input } (.decrypt none name (some (str "out")) (some (str "kr")) true)) :=
+  C12_file_vs_stdin_decrypt toyPrims rnd _ _ input _ _ _ _ (world_file_in input [] _) (by decide)
+
+example (input : Bytes) (rnd : Rand) :
+    sameResult (run toyPrims rnd (world input []) (.encrypt (some (str "in")) name name none (some (str "kr")) true))
+      (run toyPrims rnd { world input [] with stdin := input } (.encrypt none name name none (some (str "kr")) true)) :=
+  C12_file_vs_stdin_encrypt toyPrims rnd _ _ input _ _ _ _ _ (world_file_in input [] _) (by decide)
+
+example (input : Bytes) (rnd : Rand) :
+    sameResult (run toyPrims rnd (world input []) (.passDecrypt (some (str "in")) (some (str "out")) true))
+      (run toyPrims rnd { world input [] with stdin := input } (.passDecrypt none (some (str "out")) true)) :=
+  C12_file_vs_stdin_pass_decrypt toyPrims rnd _ _ input _ _ (world_file_in input [] _) (by decide)
+
+example (input : Bytes) (rnd : Rand) :
+    sameResult (run toyPrims rnd (world input []) (.passEncrypt (some (str "in")) none true))
+      (run toyPrims rnd { world input [] with stdin := input } (.passEncrypt none none true)) :=
+  C12_file_vs_stdin_pass_encrypt toyPrims rnd _ _ input _ _ (world_file_in input [] _) (by decide)
+
+/-- `KESTREL_KEYRING=kr` -/
+def envKr : List (Str × Str) := [(str "KESTREL_PASSWORD", pwS), (str "KESTREL_KEYRING", str "kr")]
+
+example (input : Bytes) (rnd : Rand) :
+    run toyPrims rnd (world input [] envKr) (.decrypt (some (str "in")) name none (some (str "kr")) true) =
+      run toyPrims rnd (world input [] envKr) (.decrypt (some (str "in")) name none none true) :=
+  (C12_keyring_opt_vs_env toyPrims rnd (world input [] envKr) (str "kr") rfl (some (str "in")) name name none true).1
+
+example := C12_out_vs_stdout_decrypt toyPrims (world smallCt []) (some (str "in")) name (str "out") (some (str "kr")) true (by decide)
+example (rnd : Rand) (input : Bytes) :=
+  C12_out_vs_stdout_encrypt toyPrims rnd (world input []) (some (str "in")) name name (str "out") (some (str "kr")) true (by decide)
+example (input : Bytes) := C12_out_vs_stdout_pass_decrypt toyPrims (world input []) (some (str "in")) (str "out") true (by decide)
+example (rnd : Rand) (input : Bytes) :=
+  C12_out_vs_stdout_pass_encrypt toyPrims rnd (world input []) (some (str "in")) (str "out") true (by decide)
+
+/-- on the small file both wirings are computed: the plaintext `[7,8,9]` in file `out`, or on stdout -/
+example : (runDecrypt toyPrims (world smallCt []) (some (str "in")) name (some (str "out")) (some (str "kr")) true).world.file (str "out")
+      = some [7,8,9] ∧
+    (runDecrypt toyPrims (world smallCt []) (some (str "in")) name none (some (str "kr")) true).stdout = [7,8,9] ∧
+    (runDecrypt toyPrims (world smallCt []) (some (str "in")) name none (some (str "kr")) true).world = world smallCt [] := by
+  rw [decrypt_small (some (str "out")) (by decide), decrypt_small none (by decide)]
+  exact ⟨World.file_setFile _ _ _, rfl, rfl⟩
+
+/-! ### (3) exit status -/
+
+example (rnd : Rand) (w : World) (req : Request) := C12_exit_values toyPrims rnd w req
+
+/-- the right-hand side of `C12_exit_decrypt_full` is satisfiable: a genuine (large) file from C01 … -/
+example : ∃ w : World, (runDecrypt toyPrims w (some (str "in")) name (some (str "out")) (some (str "kr")) true).exit = 0 ∧
+    (runDecrypt toyPrims w (some (str "in")) name (some (str "out")) (some (str "kr")) true).world.file (str "out") =
+      some exampleReads.flatten := by
+  obtain ⟨ct, h⟩ := decrypt_ok
+  exact ⟨_, by rw [h], by rw [h]; exact World.file_setFile _ _ _⟩
+
+/-- … and the small one, through the theorem -/
+example : sameFile (some (str "in")) (some (str "out")) = false ∧
+    ∃ input ks' sk pk writes spk, openInput (world smallCt []) (some (str "in")) = .ok input ∧
+      openKeyring (world smallCt []) (some (str "kr")) = .ok ks' ∧ unlockNamed (world smallCt []) ks' name true = .ok (sk, pk) ∧
+      keyDecrypt toyPrims sk pk input = (writes, .ok, some spk) ∧
+      runDecrypt toyPrims (world smallCt []) (some (str "in")) name (some (str "out")) (some (str "kr")) true =
+        { exit := 0, world := (delivered (world smallCt []) (some (str "out")) writes.flatten).1,
+          stdout := (delivered (world smallCt []) (some (str "out")) writes.flatten).2, sender := senderOf ks' (some spk) } :=
+  (C12_exit_decrypt_full toyPrims (world smallCt []) (some (str "in")) name (some (str "out")) (some (str "kr")) true).mp
+    (by rw [decrypt_small _ (by decide)])
+
+/-- a failing decrypt: a file that is too short — exit status 1, by the same equivalence -/
+example : (runDecrypt toyPrims (world [1,2,3] []) (some (str "in")) name (some (str "out")) (some (str "kr")) true).exit ≠ 0 := by
+  intro h
+  obtain ⟨_, input, ks', sk, pk, hi, _, _, hok⟩ := (C12_exit_decrypt toyPrims _ _ _ _ _ _).mp h
+  have : input = [1,2,3] := by
+    rw [openInput_file (world_file_in [1,2,3] [] _)] at hi
+    exact (Except.ok.inj hi).symm
+  subst this
+  obtain ⟨s', k', hIO, _⟩ := keyDecryptIO_plain toyPrims sk pk [1,2,3]
+  rw [hIO] at hok
+  have : (keyDecrypt toyPrims sk pk [1,2,3]).2.1 = .ioRead := by
+    rw [keyDecrypt_unfold]; rfl
+  rw [this] at hok
+  cases hok
+
+/-- encrypt to self on the structural world: exit status 0 for every input -/
+theorem encrypt_ok (input : Bytes) (outf : Option Str) (hout : outf ≠ some (str "in")) :
+    (runEncrypt toyPrims ⟨pK, eK⟩ (world input []) (some (str "in")) name name outf (some (str "kr")) true).exit = 0 := by
+  rw [runEncrypt_path (sameFile_some_ne hout) (openInput_file (world_file_in input [] _)) (world_openKeyring input [] _)
+    getKey_ks (Keyring.decodePk_encodePk skA skA_len) (world_unlock input []) (rfl : toyPrims.pub eK = some eK)]
+  rcases encryptFinish_pure toyPrims (world input []) outf skA skA skA eK eK pK input with ⟨hz, _⟩ | ⟨_, _, h2⟩
+  · rcases hz with h | h <;> cases h
+  · rw [h2]
+
+example (input : Bytes) := (C12_exit_encrypt toyPrims ⟨pK, eK⟩ (world input []) (some (str "in")) name name (some (str "out"))
+  (some (str "kr")) true).mp (encrypt_ok input _ (by decide))
+
+/-- password mode: the password `[1]` of C10decEx in the environment -/
+def pworld (input : Bytes) : World :=
+  { files := [(str "in", input)], env := [(str "KESTREL_PASSWORD", [Char.ofNat 1])], stdin := [] }
+
+theorem pworld_pass (input : Bytes) : askPass (pworld input) true = .ok C10decEx.pw := rfl
+
+example (rnd : Rand) (input : Bytes) : (runPassEncrypt toyPrims rnd (pworld input) (some (str "in")) (some (str "out")) true).exit = 0 := by
+  rw [runPassEncrypt_path (by decide) (openInput_file rfl) (pworld_pass input),
+    (passEncryptFinish_pure toyPrims _ _ C10decEx.pw rnd.a input).2]
+
+example (rnd : Rand) (input : Bytes) :=
+  (C12_exit_pass_encrypt toyPrims rnd (pworld input) (some (str "in")) (some (str "out")) true).mp (by
+    rw [runPassEncrypt_path (by decide) (openInput_file rfl) (pworld_pass input),
+      (passEncryptFinish_pure toyPrims _ _ C10decEx.pw rnd.a input).2])
+
+theorem file_dec : passDecrypt toyPrims C10decEx.pw C10decEx.file = ([[7,8],[9]], .ok) := by decide
+
+theorem pass_decrypt_ok : runPassDecrypt toyPrims (pworld C10decEx.file) (some (str "in")) (some (str "out")) true =
+    { exit := 0, world := (pworld C10decEx.file).setFile (str "out") [7,8,9], stdout := [] } := by
+  rw [runPassDecrypt_path (by decide) (openInput_file rfl) (pworld_pass _),
+    ((passDecryptFinish_pure toyPrims _ _ C10decEx.pw C10decEx.file file_dec).2.2 rfl).2]
+  rfl
+
+example := (C12_exit_pass_decrypt toyPrims (pworld C10decEx.file) (some (str "in")) (some (str "out")) true).mp (by
+  rw [pass_decrypt_ok])
+
+/-- the theorems agree with evaluating the model on this world -/
+example : (runPassDecrypt toyPrims (pworld C10decEx.file) (some (str "in")) (some (str "out")) true).exit = 0 ∧
+    (runPassDecrypt toyPrims (pworld C10decEx.file) (some (str "in")) (some (str "out")) true).world.file (str "out") = some [7,8,9] := by
+  decide
+
+end C12Ex
+
 end Kestrel
